@@ -145,6 +145,17 @@ impl<TC: Configuration> Reader<TC> {
     }
 }
 
+/// What the auditor computes as root hash for a set of elements (public API only).
+pub async fn auditor_end_hash<TC: Configuration>(elems: Vec<akd::AzksElement>, latest_epoch: u64) -> Option<Digest> {
+    let manager = StorageManager::new_no_cache(akd::storage::memory::AsyncInMemoryDatabase::new());
+    let mut azks = akd::Azks::new::<TC, _>(&manager).await.ok()?;
+    azks.latest_epoch = latest_epoch;
+    azks.batch_insert_nodes::<TC, _>(&manager, elems, akd::append_only_zks::InsertMode::Auditor, AzksParallelismConfig::default())
+        .await
+        .ok()?;
+    azks.get_root_hash::<TC, _>(&manager).await.ok()
+}
+
 /// One node of the real tree as of some epoch, projected.
 #[derive(Clone, Debug)]
 pub struct NodeView {
@@ -406,6 +417,94 @@ impl<TC: HasRef> DirCtx<TC> {
         }
     }
 
+    /// A view of this context over another database (a copy at a crash point), read through a
+    /// ReadOnlyDirectory on a fresh manager.
+    pub async fn fork_readonly(&self, db: HookDb) -> Option<DirCtx<TC>> {
+        let mut cell = self.cell.clone();
+        cell.reopen = "readonly".to_string();
+        let manager = cell.manager(db.clone());
+        let dir = Directory::<TC, _, _>::new(manager.clone(), self.vrf.clone(), cell.parallelism()).await.ok()?;
+        Some(DirCtx {
+            db,
+            manager,
+            dir,
+            vrf: self.vrf.clone(),
+            pk: self.pk.clone(),
+            ckey: self.ckey,
+            conc: self.conc.clone(),
+            cell,
+            labels: self.labels.clone(),
+            values: self.values.clone(),
+            roots: self.roots.clone(),
+            ident: self.ident.clone(),
+            ident_upto: self.ident_upto,
+            versions: self.versions.clone(),
+            kinds: self.kinds.clone(),
+        })
+    }
+
+    /// C11: publish with the commit batch captured; observe a second instance at every prefix of the batch
+    /// (and seeded random subsets), epoch record excluded; then apply the whole batch and go on.
+    pub async fn publish_crash(&mut self, batch: &Value, seed: u64, tr: &mut Tracer) {
+        use rand::seq::SliceRandom;
+        use rand::{Rng, SeedableRng};
+        let real = self.batch_to_real(batch);
+        let before = self.roots.len() as u64 - 1;
+        let w = self.writer().await;
+        self.db.take_captured();
+        self.db.set_capture(true);
+        let res = w.publish(real).await;
+        self.db.set_capture(false);
+        let captured = self.db.take_captured();
+        if let Some(recs) = captured.last() {
+            let n = recs.len();
+            let azks_last = matches!(recs.last(), Some(DbRecord::Azks(_)));
+            let body: Vec<DbRecord> = recs.iter().filter(|r| !matches!(r, DbRecord::Azks(_))).cloned().collect();
+            let mut points: Vec<(String, Vec<DbRecord>)> = vec![];
+            for k in 0..=body.len() {
+                points.push((format!("prefix{k}"), body[..k].to_vec()));
+            }
+            let mut rng = rand::rngs::StdRng::seed_from_u64(seed);
+            for j in 0..6 {
+                let mut idx: Vec<usize> = (0..body.len()).collect();
+                idx.shuffle(&mut rng);
+                let take = if body.is_empty() { 0 } else { rng.random_range(0..=body.len()) };
+                points.push((format!("subset{j}"), idx[..take].iter().map(|i| body[*i].clone()).collect()));
+            }
+            for (name, subset) in points {
+                let copy = self.db.deep_copy().await;
+                use akd::storage::Database;
+                let _ = copy.inner.batch_set(subset.clone(), akd::storage::DbSetState::General).await;
+                tr.emit(json!({"ev": "crash", "point": name, "applied": subset.len(), "of": n, "azks_last": azks_last}));
+                match self.fork_readonly(copy).await {
+                    Some(mut f) => f.sweep(tr).await,
+                    None => tr.emit(json!({"ev": "error", "what": "cannot open second instance at crash point"})),
+                }
+            }
+            // now the whole batch reaches storage
+            use akd::storage::Database;
+            let _ = self.db.inner.batch_set(recs.clone(), akd::storage::DbSetState::TransactionCommit).await;
+        }
+        match res {
+            Ok(EpochHash(ep, digest)) => {
+                let kind = if ep == before { "noop" } else { "ok" };
+                if ep == before + 1 {
+                    self.roots.push(digest);
+                    for p in batch.as_array().unwrap() {
+                        *self.versions.entry(p[0].as_str().unwrap().to_string()).or_insert(0) += 1;
+                    }
+                }
+                let (refroot, leaves) = self.leaves_and_refroot(ep).await;
+                tr.emit(json!({"ev": "publish", "batch": batch, "res": kind, "epoch": ep, "root": rid(&digest),
+                    "root_ok": refroot == Some(digest), "leaves": leaves, "txn_open": self.manager.is_transaction_active()}));
+            }
+            Err(_e) => {
+                tr.emit(json!({"ev": "publish", "batch": batch, "res": "err", "epoch": before, "root": "-",
+                    "root_ok": true, "leaves": [], "txn_open": self.manager.is_transaction_active()}));
+            }
+        }
+    }
+
     pub async fn tombstone(&mut self, label: &str, cut: u64, tr: &mut Tracer) {
         let l = self.conc.label(label);
         let res = self.manager.tombstone_value_states(&l, cut).await;
@@ -584,6 +683,28 @@ impl<TC: HasRef> DirCtx<TC> {
             p.epochs[k] += 1;
             cases.push(("epoch_plus_one".into(), k as u64, hashes.clone(), p));
         }
+        // splice: step k (k >= 1) replaced by a step that does not start from hashes[k]; the following hash is
+        // whatever the auditor computes for it (the server is free to publish it). Must be rejected because the
+        // spliced step's unchanged nodes do not reproduce hashes[k].
+        for k in 1..proof.proofs.len() {
+            let donor = proof.proofs[0].clone();
+            let end_epoch = proof.epochs[k] + 1;
+            let mut end_set = donor.unchanged_nodes.clone();
+            end_set.extend(donor.inserted.iter().map(|x| akd::AzksElement {
+                label: x.label,
+                value: akd::AzksValue(TC::hash_leaf_with_commitment(x.value, end_epoch).0),
+            }));
+            if let Some(hx) = auditor_end_hash::<TC>(end_set, end_epoch - 1).await {
+                let mut p = proof.clone();
+                p.proofs[k] = donor;
+                p.proofs.truncate(k + 1);
+                p.epochs.truncate(k + 1);
+                let mut h = hashes.clone();
+                h.truncate(k + 1);
+                h.push(hx);
+                cases.push(("splice_step".into(), k as u64, h, p));
+            }
+        }
         for (kind, k, h, p) in cases.into_iter() {
             let accepted = akd::auditor::audit_verify::<TC>(h, p).await.is_ok();
             tr.emit(json!({"ev": "audit_tamper", "s": s, "e": e, "kind": kind, "k": k, "accepted": accepted}));
@@ -671,6 +792,7 @@ pub async fn run_behaviour<TC: HasRef>(b: &Value, tr: &mut Tracer) {
     for (i, st) in steps.iter().enumerate() {
         match st["op"].as_str().unwrap() {
             "publish" => ctx.publish(&st["batch"], tr).await,
+            "publish_crash" => ctx.publish_crash(&st["batch"], b["seed"].as_u64().unwrap_or(1) + i as u64, tr).await,
             "tombstone" => {
                 ctx.tombstone(st["label"].as_str().unwrap(), st["cut"].as_u64().unwrap(), tr)
                     .await
@@ -704,9 +826,12 @@ where
 {
     std::fs::create_dir_all(out).unwrap();
     let n = behaviours.len();
-    let chunks: Vec<Vec<Value>> = (0..threads)
-        .map(|t| behaviours.iter().skip(t).step_by(threads).cloned().collect())
-        .collect();
+    // behaviours carrying the same "group" number are kept in the same trace file (same TLC run)
+    let mut chunks: Vec<Vec<Value>> = (0..threads).map(|_| vec![]).collect();
+    for (i, b) in behaviours.iter().enumerate() {
+        let slot = b["group"].as_u64().map(|g| g as usize).unwrap_or(i) % threads;
+        chunks[slot].push(b.clone());
+    }
     let mut handles = vec![];
     for (t, chunk) in chunks.into_iter().enumerate() {
         let out = out.to_string();
